@@ -766,6 +766,12 @@ func lossyList(l []spec.Pair) []spec.Pair {
 	return out
 }
 
+var richDefaultSchemeProfiles = []struct {
+	name string
+	p    url.Parser
+}{{"GoogleSafeBrowsing", canonicalizer.GoogleSafeBrowsing}, {"Semantic", canonicalizer.Semantic},
+	{"New(default-scheme http, collapse, remove-port)", canonicalizer.New(canonicalizer.WithDefaultScheme("http"), url.WithCollapseConsecutiveSlashes(), canonicalizer.WithRemovePort())}}
+
 func check16DefaultScheme(c Case16, r *core.Rec) {
 	scheme := ""
 	for _, o := range c.Opts {
@@ -798,6 +804,27 @@ func check16DefaultScheme(c Case16, r *core.Rec) {
 				}
 				r.Class("default-scheme:base-applied")
 				r.NT()
+				// the same for profiles that carry other options as well: reading the base as
+				// http://base must give what writing http://base gives — under the profile's own
+				// configuration, which the result keeps for later setter calls
+				for _, rp := range richDefaultSchemeProfiles {
+					g := parsed{}
+					g.u, g.err = rp.p.ParseRef(string(c.Base), x)
+					w := parsed{}
+					w.u, w.err = rp.p.ParseRef("http://"+string(c.Base), x)
+					if d := sameOutcome(g, w); d != "" {
+						r.Failf("%s: %s.ParseRef with the schemeless base differs from ParseRef(%s, ref): %s", where16(c), rp.name, quote("http://"+string(c.Base)), d)
+						return
+					}
+					if g.ok() && w.ok() {
+						g.u.SetPathname("/x//y/../z%41")
+						w.u.SetPathname("/x//y/../z%41")
+						if d := DiffObs(ObsOf(g.u), ObsOf(w.u)); d != "" {
+							r.Failf("%s: after SetPathname on the result of %s.ParseRef with the schemeless base vs ParseRef(%s, ref): %s", where16(c), rp.name, quote("http://"+string(c.Base)), d)
+							return
+						}
+					}
+				}
 			} else {
 				r.Vacuous()
 			}
